@@ -8,7 +8,9 @@ import KrakenModel.Model.AgentTorrent
   outstanding piece requests, requests marked invalid, and which in-flight WritePiece belongs
   to which delivery.  Actions (a schedule / fault sequence is any list of them):
 
-    connect a b      a and b open a connection (both below their connection limit, not blacklisted)
+    connect a b      a dials b and the connection is established (both below their connection limit; the
+                     dialer does not dial a peer it has blacklisted, the acceptor does not look at its blacklist)
+    dialfail a b     a's outgoing handshake to b fails or is refused: a blacklists b
     disconnect a b   the connection is dropped (either side, any time: preemption, ConnTTI/ConnTTL, a
                      failure); each side blacklists the other for the torrent
     unblacklist a b  a's blacklist entry for b expires (BlacklistDuration)
@@ -62,6 +64,7 @@ structure Swarm where
 inductive Action where
   | connect (a b : Nat)
   | disconnect (a b : Nat)
+  | dialfail (a b : Nat)
   | unblacklist (a b : Nat)
   | expire (a b i : Nat)
   | resend (a f b i : Nat)
@@ -113,11 +116,15 @@ def step (crc : Bytes → Nat) (s : Swarm) : Action → Swarm
     | some pa, some pb =>
       if a ≠ b ∧ pa.present ∧ pb.present ∧ b ∉ pa.conns ∧ a ∉ pb.conns ∧
           pa.conns.length < s.cfg.maxConns ∧ pb.conns.length < s.cfg.maxConns ∧
-          b ∉ pa.blacklist ∧ a ∉ pb.blacklist then
+          b ∉ pa.blacklist then
         setPeer (setPeer s a { pa with conns := b :: pa.conns }) b { pb with conns := a :: pb.conns }
       else s
     | _, _ => s
   | .disconnect a b => dropEnd (dropEnd s a b) b a
+  | .dialfail a b =>
+    match s.peers[a]? with
+    | some pa => setPeer s a { pa with blacklist := b :: pa.blacklist }
+    | none => s
   | .unblacklist a b =>
     match s.peers[a]? with
     | some pa => setPeer s a { pa with blacklist := pa.blacklist.filter (· ≠ b) }
